@@ -121,7 +121,7 @@ class DefUse:
             if k == "deref":
                 t = t[1] if t[0] == "ref" else ("deref", t)
             elif k == "field":
-                t = ("field", t, p["n"])
+                t = _project_field(t, p["n"])
             elif k == "downcast":
                 t = ("downcast", t, p["v"])
             elif k == "index":
@@ -207,6 +207,20 @@ class DefUse:
             if d.place.proj or len(full) > 1:
                 out.append((d.block, d.idx))
         return out
+
+
+def _project_field(t, name):
+    """field projection with constant folding through tuple / struct aggregates"""
+    inner = t
+    while inner[0] == "var":
+        inner = inner[3]
+    if inner[0] == "tuple" and name.isdigit() and int(name) < len(inner[1]):
+        return inner[1][int(name)]
+    if inner[0] == "agg" and len(inner) > 4 and name in inner[4]:
+        i = inner[4].index(name)
+        if i < len(inner[3]):
+            return inner[3][i]
+    return ("field", t, name)
 
 
 def du_of(body):
